@@ -45,6 +45,9 @@ func (r *BasicPrivateTokenRequest) Marshal() []byte {
 }
 
 func (r *BasicPrivateTokenRequest) Unmarshal(data []byte) bool {
+	// Drop the cached encoding of any value the object held before.
+	r.raw = nil
+
 	s := cryptobyte.String(data)
 
 	var tokenType uint16
